@@ -105,4 +105,14 @@ class Pool:
             t.start()
         for t in threads:
             t.join()
+        # a request that ran into the wall clock while the machine was busy with the other requests is asked once more, on its
+        # own and with three times the time (at most 24 of them): only what is slow on an idle machine too counts as a timeout
+        late = [i for i, r in enumerate(res) if isinstance(r, dict) and r.get("timeout")]
+        if 0 < len(late) <= 24:
+            w = Worker(self.env)
+            try:
+                for i in late:
+                    res[i] = w.call(reqs[i], timeout * 3)
+            finally:
+                w.kill()
         return res
